@@ -9,6 +9,25 @@
 
 namespace FIX8 { namespace UTEST { const F8MetaCntx& ctx(); } namespace F44 { const F8MetaCntx& ctx(); } }
 
+// ---- virtual clock: CLOCK_REALTIME is served from a harness variable when enabled (Tickval(true), Tickval::now(), time())
+#include <sys/syscall.h>
+#include <time.h>
+namespace vf { bool vclock_on(false); struct timespec vclock_now {0, 0}; long long sleeps(0); }
+extern "C" int clock_gettime(clockid_t id, struct timespec *ts)
+{
+	if (id == CLOCK_REALTIME && vf::vclock_on)
+	{
+		*ts = vf::vclock_now;
+		return 0;
+	}
+	return static_cast<int>(syscall(SYS_clock_gettime, id, ts));
+}
+extern "C" int clock_nanosleep(clockid_t id, int flags, const struct timespec *req, struct timespec *rem)
+{
+	if (vf::vclock_on) { ++vf::sleeps; return 0; }   // sleeps are no-ops on the virtual clock
+	return static_cast<int>(syscall(SYS_clock_nanosleep, id, flags, req, rem)) ? errno : 0;
+}
+
 namespace vf {
 
 std::map<std::string, Cmd>& commands() { static std::map<std::string, Cmd> c; return c; }
@@ -29,6 +48,13 @@ const FIX8::F8MetaCntx& schema(const std::string& name)
 	if (!f) throw std::runtime_error("dlsym verif_ctx failed");
 	return *(dl_ctx[name] = f());
 }
+
+static Reg r_clock("clock", [](std::istringstream& is) {
+	std::string op; is >> op;
+	if (op == "off") vclock_on = false;
+	else { long long sec(0), nsec(0); is >> sec >> nsec; vclock_now.tv_sec = sec; vclock_now.tv_nsec = nsec; vclock_on = true; }
+	return std::string("{\"ok\":true}");
+});
 
 static std::string g_scratch;
 std::string scratch_dir() { return g_scratch; }
